@@ -32,7 +32,9 @@ fn hex(b: &[u8]) -> String {
     s
 }
 
-fn eval(mode: &str, key: &[u8], context: &[u8], input_len: usize, out_len: usize, split: usize) -> Vec<u8> {
+// extra != 0 (directed search only): a zero-length update after the input and a throw-away finalize before the
+// real one - both must be no-ops ("finalize is a pure query", "zero-length updates are no-ops")
+fn eval(mode: &str, key: &[u8], context: &[u8], input_len: usize, out_len: usize, split: usize, extra: usize) -> Vec<u8> {
     let input: Vec<u8> = (0..input_len).map(|i| (i % 251) as u8).collect();
     let mut hasher = match mode {
         "hash" => reference_impl::Hasher::new(),
@@ -48,6 +50,16 @@ fn eval(mode: &str, key: &[u8], context: &[u8], input_len: usize, out_len: usize
     } else {
         for piece in input.chunks(split) {
             hasher.update(piece);
+        }
+    }
+    if extra != 0 {
+        hasher.update(&[]);
+        let mut pre = vec![0u8; 1 + (input_len % 67)];
+        hasher.finalize(&mut pre);
+        if extra == 2 {
+            // a prefix digest taken, then more input: the stream continues as if nothing had happened
+            let more: Vec<u8> = (input_len..input_len + 700).map(|i| (i % 251) as u8).collect();
+            hasher.update(&more);
         }
     }
     let mut out = vec![0u8; out_len];
@@ -66,11 +78,12 @@ fn main() {
         if f.is_empty() {
             continue;
         }
-        assert!(f.len() == 6, "bad request line");
+        assert!(f.len() == 6 || f.len() == 7, "bad request line");
+        let extra: usize = if f.len() == 7 { f[6].parse().unwrap() } else { 0 };
         let (mode, key, context) = (f[0].to_string(), unhex(f[1]), unhex(f[2]));
         let (input_len, out_len, split): (usize, usize, usize) =
             (f[3].parse().unwrap(), f[4].parse().unwrap(), f[5].parse().unwrap());
-        let r = std::panic::catch_unwind(move || eval(&mode, &key, &context, input_len, out_len, split));
+        let r = std::panic::catch_unwind(move || eval(&mode, &key, &context, input_len, out_len, split, extra));
         match r {
             Ok(out) => writeln!(w, "{}", hex(&out)).unwrap(),
             Err(_) => writeln!(w, "PANIC").unwrap(),
